@@ -167,6 +167,15 @@ impl EventGen for ReuseElement {
         // a reuse element which doesn't place its instance leaves the target's own
         // geometry (anchors such as cx / cy, dw / dh, end points) as written
         let is_placed = pos.is_positioned();
+        // (placing an instance writes its size out: dw / dh are part of that size)
+        let instance_size = if is_placed && instance_size.is_some() {
+            instance_element.resolve_size_delta();
+            instance_element.size(context).inspect_err(|_| {
+                context.pop_element();
+            })?
+        } else {
+            instance_size
+        };
         if let Some(bb) = context.get_element(&elref).and_then(|el| el.content_bbox) {
             pos.update_size(&bb.size());
         } else if let Some(sz) = instance_size {
